@@ -80,17 +80,25 @@ val tl : 'a1 list -> 'a1 list
 
 val nth : nat -> 'a1 list -> 'a1 -> 'a1
 
+val rev : 'a1 list -> 'a1 list
+
 val concat : 'a1 list list -> 'a1 list
 
 val map : ('a1 -> 'a2) -> 'a1 list -> 'a2 list
 
 val fold_left : ('a1 -> 'a2 -> 'a1) -> 'a2 list -> 'a1 -> 'a1
 
+val existsb : ('a1 -> bool) -> 'a1 list -> bool
+
+val forallb : ('a1 -> bool) -> 'a1 list -> bool
+
 val filter : ('a1 -> bool) -> 'a1 list -> 'a1 list
 
 val combine : 'a1 list -> 'a2 list -> ('a1 * 'a2) list
 
 val seq : nat -> nat -> nat list
+
+val repeat : 'a1 -> nat -> 'a1 list
 
 val ex_keep : (((((nat * n) * z) * z list) * z option) * positive) * bool
 
@@ -178,3 +186,135 @@ type result = { res_masks : n list; res_bits : nat list list;
                 res_cls : cls list list }
 
 val analyse : cfg -> result option
+
+type nref = nat * nat
+
+type stmt =
+| Skip
+| Call
+| Ref of nat * nat
+| Asg of nat * nat
+| Del of nat * nat * bool
+| Seq of stmt * stmt
+| If of nref list * stmt * bool * stmt
+| Loop of bool * nref list * nref list * stmt * bool * stmt
+| Try of stmt * bool * stmt * handlers
+| TryFin of stmt * stmt * stmt
+| Break
+| Continue
+| Return
+| Raise
+and handlers =
+| HNil
+| HCons of nref list * bool * nat * nat * stmt * handlers
+
+type lstat =
+| LRef of nat * nat
+| LAsg of nat * nat
+| LDel of nat * nat
+
+type excd = { x_entry : nat; x_fin : (nat * (nat * nat) option) option }
+
+type loopd = { l_next : nat; l_loop : nat; l_excs : excd list }
+
+type bst = { nb : nat; sts : (nat * lstat) list;
+             eds : ((nat * nat) * nat) list; cur : nat option;
+             loops : loopd list; excs : excd list }
+
+val set_cur : nat option -> bst -> bst
+
+val set_loops : loopd list -> bst -> bst
+
+val set_excs : excd list -> bst -> bst
+
+val len : bst -> nat -> nat
+
+val add_edge_k : nat -> nat -> nat -> bst -> bst
+
+val add_edge : nat -> nat -> bst -> bst
+
+val add_edge_o : nat option -> nat -> bst -> bst
+
+val link_cur : nat -> bst -> bst
+
+val newblock : bst -> bst
+
+val nextblock_from : nat option -> bst -> bst
+
+val nextblock : bst -> bst
+
+val append : lstat -> bst -> bst
+
+val exc_edge : bst -> bst
+
+val v_ref : nat -> nat -> bst -> bst
+
+val v_asg : nat -> nat -> bst -> bst
+
+val v_del : nat -> nat -> bool -> bst -> bst
+
+val refs : nref list -> bst -> bst
+
+val asgs : nref list -> bst -> bst
+
+val has_parents : nat -> bst -> bool
+
+val cur_if_parents : nat -> bst -> bst
+
+val push_loop : loopd -> bst -> bst
+
+val pop_loop : bst -> bst
+
+val push_exc : excd -> bst -> bst
+
+val pop_exc : bst -> bst
+
+val push_loop_exc : excd -> bst -> bst
+
+val pop_loop_exc : bst -> bst
+
+val chain_edges : nat -> nat -> excd list -> nat -> bst -> bst
+
+val jump_loop_asis : nat -> nat -> excd list -> nat -> bst -> bst
+
+val first_fin : excd list -> ((nat * (nat * nat) option) * excd list) option
+
+val jump_ret_asis : nat -> nat -> excd list -> bst -> bst
+
+val v_break : bool -> bool -> bst -> bst
+
+val v_return : bool -> bst -> bst
+
+val v_raise : bst -> bst
+
+val visit : bool -> stmt -> bst -> bst
+
+val visit_h : bool -> handlers -> nat -> nat -> bst -> nat * bst
+
+val st_init : nref list -> bst
+
+val build : bool -> nref list -> stmt -> bst
+
+val block_stats : bst -> nat -> lstat list
+
+val edges_at_end : bst -> bool
+
+val reach_step : bst -> nat list -> nat list
+
+val reach_iter : nat -> bst -> nat list -> nat list
+
+val closed_b : bst -> nat list -> bool
+
+val reachable : bst -> nat -> bool
+
+val to_stat : lstat -> stat
+
+val cfg_of : nat -> bst -> cfg
+
+val cls_at : nat -> bst -> result -> nat -> nat -> cls option
+
+val wf : bool -> stmt -> bool
+
+val wf_h : bool -> handlers -> bool
+
+val run_cfg : bool -> nat -> nref list -> stmt -> bst * result option
